@@ -371,42 +371,86 @@ fn audit<K: Key>(
         } else {
             vec![None, Some(rng.usize(full.len())), Some(0)]
         };
+        // what the callback emits: something for every key; for every second call only (a filtering
+        // caller); nothing at all (a caller that collects through a side channel, as the collection
+        // layer does). The stop signal and the visiting order do not depend on it: the keys the
+        // callback was SHOWN are compared as well as the output.
+        let emit_mode = rng.usize(3);
         for stop in stops {
             for rev in [false, true] {
                 let mut calls = 0usize;
+                let mut shown: Vec<K> = vec![];
                 let cb = |k: &K, ids: &Vec<u64>| {
                     calls += 1;
+                    shown.push(k.clone());
                     let cont = match stop {
                         None => true,
                         Some(p) => calls <= p,
                     };
-                    (cont, vec![(k.clone(), sorted(ids))])
+                    let emit = match emit_mode {
+                        0 => true,
+                        1 => calls % 2 == 0,
+                        _ => false,
+                    };
+                    (cont, if emit { vec![(k.clone(), sorted(ids))] } else { vec![] })
                 };
                 let got = if rev {
                     idx.range_query_rev_with(q.clone(), cb)
                 } else {
                     idx.range_query_with(q.clone(), cb)
                 };
-                let exp: Vec<(K, Vec<u64>)> = match stop {
-                    None => full.clone(),
-                    Some(p) => {
-                        let n = (p + 1).min(full.len());
-                        if rev {
-                            full[full.len() - n..].to_vec()
-                        } else {
-                            full[..n].to_vec()
-                        }
+                // the keys the scan visits, in visiting order
+                let visited: Vec<(K, Vec<u64>)> = {
+                    let mut v = full.clone();
+                    if rev {
+                        v.reverse();
                     }
+                    if let Some(p) = stop {
+                        v.truncate((p + 1).min(full.len()));
+                    }
+                    v
+                };
+                let emitted_in_visiting_order: Vec<(K, Vec<u64>)> = visited
+                    .iter()
+                    .enumerate()
+                    .filter(|(i, _)| match emit_mode {
+                        0 => true,
+                        1 => (i + 1) % 2 == 0,
+                        _ => false,
+                    })
+                    .map(|(_, x)| x.clone())
+                    .collect();
+                // the output of a descending scan is reported in ascending key order
+                let exp: Vec<(K, Vec<u64>)> = {
+                    let mut e = emitted_in_visiting_order;
+                    if rev {
+                        e.reverse();
+                    }
+                    e
                 };
                 st.count(if rev { "oracle_range_rev" } else { "oracle_range_fwd" });
+                st.count(&format!("oracle_range_emit_mode_{emit_mode}"));
                 if stop.is_some() {
                     st.count("oracle_range_early_stop");
+                    if emit_mode != 0 {
+                        st.count("oracle_range_early_stop_at_calls_without_output");
+                    }
+                }
+                let shown_exp: Vec<K> = visited.iter().map(|(k, _)| k.clone()).collect();
+                if shown != shown_exp {
+                    fail(
+                        st,
+                        &format!("range_query{}/keys_shown_to_the_callback", if rev { "_rev" } else { "" }),
+                        json!({"query": format!("{q:?}"), "stop_after": stop, "emit_mode": emit_mode,
+                               "shown": format!("{shown:?}"), "expected": format!("{shown_exp:?}")}),
+                    );
+                    ok = false;
                 }
                 if got != exp {
                     fail(
                         st,
                         &format!("range_query{}", if rev { "_rev" } else { "" }),
-                        json!({"query": format!("{q:?}"), "stop_after": stop,
+                        json!({"query": format!("{q:?}"), "stop_after": stop, "emit_mode": emit_mode,
                                "got": format!("{got:?}"), "expected": format!("{exp:?}")}),
                     );
                     ok = false;
@@ -1359,6 +1403,7 @@ fn main() {
     run.floor("crash_prefix_after_commit", 20);
     run.floor("oracle_range_rev", 500);
     run.floor("oracle_range_early_stop", 500);
+    run.floor("oracle_range_early_stop_at_calls_without_output", 500);
     run.floor("ops_rejected_unique", 5);
     run.floor("schedules_run", 50);
     run.floor("concurrent_reads_during_stress", 100);
